@@ -43,7 +43,7 @@ def _norm(eff: dict):
     if kind == "commit":
         return ["commit", "db"]
     if kind == "unlink":
-        return ["unlink", "ka" if t == "keep_alive" else t]
+        return ["unlink", "ka" if t == "keep_alive" else "db" if t == "org/.zorg/zorg.db" else t]
     if kind == "write" and t.endswith(".tmp"):
         return None                                  # first half of an atomic replace
     if kind == "rename":
@@ -65,10 +65,28 @@ class User:
         self.rng = rng
         self.broken = {p: False for p in PAGES}
         self.next_mod = {p: 1 for p in PAGES}      # next original note not yet modified today
-        self.modded = {p: set() for p in PAGES}    # uids the user changed on DAY2
+        self.modded = {p: set() for p in PAGES}    # uids the user changed on DAY2 (and that must carry today's stamp)
+        self.unstamped = {p: set() for p in PAGES}  # ... changed since the last process that ended normally
         self.nnew = 0
 
+    def settled(self, by_create: bool, stamped_before: dict) -> None:
+        """A process ended normally: a reindex has stamped what was changed; `db create` never stamps (what carried a
+        stamp before it - written back by an earlier process that died later - keeps it)."""
+        for p in PAGES:
+            if by_create:
+                self.modded[p] -= (self.unstamped[p] - stamped_before[p])
+            self.unstamped[p] = set()
+
     def choose(self, last: bool) -> tuple[dict, dict]:
+        ed = self.choose_edits()
+        if last:
+            ka = {"st": "absent", "paths": [], "focus": ""}
+        else:
+            r = self.rng.random()
+            ka = ({"st": "empty", "paths": [], "focus": ""} if r < 0.5 else dict(self.rng.choice(KA_PATHS), st="paths"))
+        return ed, ka
+
+    def choose_edits(self, some: bool = False) -> dict:
         ed = {}
         for p in PAGES:
             if self.broken[p]:
@@ -80,12 +98,10 @@ class User:
             if k in ("mod", "both") and self.next_mod[p] > NOTES_PER_PAGE:
                 k = "plain"
             ed[p] = k
-        if last:
-            ka = {"st": "absent", "paths": [], "focus": ""}
-        else:
-            r = self.rng.random()
-            ka = ({"st": "empty", "paths": [], "focus": ""} if r < 0.5 else dict(self.rng.choice(KA_PATHS), st="paths"))
-        return ed, ka
+        if some and all(k == "none" for k in ed.values()):
+            p = self.rng.choice([q for q in PAGES if not self.broken[q]] or PAGES)
+            ed[p] = "fix" if self.broken[p] else "plain"
+        return ed
 
     def apply(self, env, ed: dict) -> None:
         for p, k in ed.items():
@@ -103,6 +119,7 @@ class User:
                 assert t2 != t, (p, u, t)
                 t = t2
                 self.modded[p].add(f"u{u}")
+                self.unstamped[p].add(f"u{u}")
             if k in ("new", "both"):
                 self.nnew += 1
                 lines = t.split("\n")
@@ -118,6 +135,13 @@ class User:
                 t = t[: -len(BROKEN)]
                 self.broken[p] = False
             env.path(p).write_text(t)
+
+
+def _stamped_today(env) -> dict:
+    out = {}
+    for p in PAGES:
+        out[p] = set(m.group(1) for m in re.finditer(rf"^\S+(?: P\d)? {STAMP2} \d{{6}}#\w+ (u\d+)v", env.read(p), re.M))
+    return out
 
 
 def _real_checks(env, user: User) -> list:
@@ -177,7 +201,16 @@ def one_history(args) -> dict:
         zenv.set_day(DAY2)
         user = User(rng)
         for _proc in range(nproc):
+            kind = rng.choice(["edit"] * 6 + ["reindex"] * 2 + ["create"] * 2) if _proc else "edit"
+            if _proc and rng.random() < 0.5:
+                ed = user.choose_edits(some=True)             # the user edits pages with another tool, no zorg process running
+                trace.append(["user", ed])
+                script.append({"offline": ed})
+                user.apply(env, ed)
+            trace.append(["start", kind])
+            script.append({"process": kind})
             nsess = rng.randint(1, max_sess)
+            stamped_before = _stamped_today(env)
             st = {"k": 0}
             ipref = {}
 
@@ -219,15 +252,18 @@ def one_history(args) -> dict:
             with patch("vimala._vim.proctor.safe_popen", fake_popen):
                 with Interposer(env.root, on_effect=on_effect) as ip:
                     ipref["ip"] = ip
-                    r = env.main("edit", *CLI)
+                    r = env.main("edit", *CLI) if kind == "edit" else env.main("db", kind)
             trace.append(["exit", "ok" if r.ok else "error"])
             if r.ok:
+                user.settled(kind == "create", stamped_before)
                 problems += _real_checks(env, user)
                 if any(user.broken.values()):
                     problems.append(("refusal", "process ended normally although a page is unparsable"))
             else:
                 if not any(user.broken.values()):
-                    problems.append(("crash", f"zorg edit failed without a broken page: {r!r} {r.err[-300:]}"))
+                    problems.append(("crash", f"zorg {kind} failed without a broken page: {r!r} {r.err[-300:]}"))
+                if kind == "create":
+                    break           # a refused `db create` leaves an empty index behind: nothing is specified from here on
         return {"id": seed, "trace": trace, "problems": problems, "script": script}
     finally:
         env.cleanup()
